@@ -3,6 +3,7 @@ Entry points:
   python -m sa.cli check Cxx [--tier quick|thorough]
   python -m sa.cli replay <path>
   python -m sa.cli all [--tier ...]          (convenience: every claimed property)
+  python -m sa.cli warm                      (optional: pre-compute the cached normal form of the current tree)
 Exit codes: 0 property held / 1 VIOLATION / 2 ANALYSIS-ERROR.
 """
 import importlib
@@ -129,6 +130,13 @@ def main(argv=None):
             code, _ = run_property(p, tier, model=models[f], write=write)
             worst = max(worst, code)
         return worst
+    if cmd == 'warm':
+        # optional: fill the digest-keyed cache of the normal form (sa/model.py) so that the first check does not pay for it
+        try:
+            Model(form='normal')
+        except Exception as e:
+            print('warm: %r (ignored: every check recomputes what it needs)' % (e,))
+        return 0
     if cmd == 'replay':
         with open(argv[0]) as f:
             rec = json.load(f)
